@@ -28,7 +28,7 @@ LEVEL_NOTE = ("Tolerance 1e-6 relative to the largest contributing node (float32
 RULE = ("case = one world x 3 subgrids x 2000 positions (kinds: random nodes, per-level linear, linear in x,y,z over a flat bottom). Non-trivial: land faces contribute, positions "
         "on edges/rim and depths outside the level range are present; distinct by world parameters.")
 MANDATORY = ["positions_compared", "land_face_contributes", "depth_above_top_level", "depth_below_bottom_level", "depth_on_level", "edge_tie_positions", "rim_positions",
-             "packed_storage", "packed_with_different_scale_factors", "subgrid_pairs_compared", "scalar_values_compared", "linear_levels_exact", "linear3d_exact", "convexity_checked", "vtransform2", "e2e_displacements_checked", "e2e_scalar_values_checked", "consecutive_update_values_compared"]
+             "packed_storage", "packed_with_different_scale_factors", "subgrid_pairs_compared", "scalar_values_compared", "linear_levels_exact", "linear3d_exact", "convexity_checked", "vtransform2", "e2e_displacements_checked", "e2e_scalar_values_checked", "consecutive_update_values_compared", "second_file_with_other_packing"]
 ASSUMPTIONS = ["add_offset of packed u/v is zero (the code documents that it ignores it)", "positions inside the valid region of every subgrid used"]
 TIMEOUT = {"quick": 900, "thorough": 3400}
 
@@ -200,12 +200,15 @@ def run_case(case: dict[str, Any], wd: Path) -> dict[str, Any]:
                    v0=float(c[4]), vx=float(c[5]) / 10, vy=float(c[6]) / 10, vz=float(c[7]) / 50)
         mask = dict(kind="sea")
         store = "f8"
-    spec = dict(imax=imax, jmax=jmax, N=N, t0=C.T0, frames=[0, 3600], files=[2], vel=vel, h=hspec, mask=mask, vert=vert, store=store,
+    two_files = bool(packed)
+    spec = dict(imax=imax, jmax=jmax, N=N, t0=C.T0, frames=[0, 600] if two_files else [0, 3600], files=[1, 1] if two_files else [2], vel=vel, h=hspec, mask=mask, vert=vert, store=store,
                 scalars=dict(temp=dict(kind="random", seed=case["idx"], lo=-2.0, hi=25.0, steady=True), salt=dict(kind="random", seed=case["idx"] + 1, lo=0.0, hi=35.0, steady=True)),
                 metric=dict(kind="uniform", dx=800.0, dy=800.0))
     if packed:
         spec["pack"] = dict(u=1.0e-4, v=float(rng.choice([1.0e-4, 4.0e-5, 2.5e-4])), temp=(0.001, 10.0), salt=(0.001, 17.0))
         sit_pack_differs = spec["pack"]["u"] != spec["pack"]["v"]
+        # the second file is packed with other parameters than the first
+        spec["pack_per_file"] = [dict(spec["pack"]), dict(u=2.0e-4, v=5.0e-5, temp=(0.002, 5.0), salt=(0.002, 17.0))]
     w = W.write_world(wd / "w", spec)
     raw = read_frame0(w["files"], ["u", "v", "temp", "salt"])
     with Dataset(w["gridfile"]) as nc:
@@ -272,12 +275,12 @@ def run_case(case: dict[str, Any], wd: Path) -> dict[str, Any]:
     results = []
     for sub in subs:
         try:
-            timer = TimeKeeper(start=C.T0, stop=str(tadd(C.T0, 1800)), dt=600)
+            timer = TimeKeeper(start=C.T0, stop=str(tadd(C.T0, 600 if two_files else 1800)), dt=600)
             state = State(instance_variables=dict(temp=float, salt=float), default_values=dict(temp=0.0, salt=0.0))
             modules: dict[str, Any] = dict(time=timer, state=state)
             grid = Grid(filename=str(w["gridfile"]), subgrid=sub)
             modules["grid"] = grid
-            forcing = Forcing(modules, filename=str(w["files"][0]), extra_forcing=["temp", "salt"])
+            forcing = Forcing(modules, filename=w["pattern"] if two_files else str(w["files"][0]), extra_forcing=["temp", "salt"])
             modules["forcing"] = forcing
             state.append(X=X, Y=Y, Z=Z)
             timer.update()
@@ -306,10 +309,15 @@ def run_case(case: dict[str, Any], wd: Path) -> dict[str, Any]:
     U0, V0, sc0, fu0, fv0 = results[0]
     if kind == "random":
         # the second update of the same Forcing must give every particle exactly what the first gave the particle it swapped with
+        # (two packed files: the same physical field, re-quantised with the second file's parameters - compared at that precision)
         U2, V2, sc2 = second
         sit["consecutive_update_values_compared"] = n
+        sit["second_file_with_other_packing"] = int(two_files)
         d2 = max(float(np.max(np.abs(U2 - U0))), float(np.max(np.abs(V2 - V0))), float(np.max(np.abs(sc2["temp"] - sc0["temp"]))))
-        if d2 > 0:
+        if two_files:  # quantisation steps of the two files: u, v <= 2e-4, temp <= 2e-3
+            d2 = max(float(np.max(np.abs(U2 - U0))) / 4.0e-4, float(np.max(np.abs(V2 - V0))) / 4.0e-4, float(np.max(np.abs(sc2["temp"] - sc0["temp"]))) / 3.0e-3)
+            d2 = 0.0 if d2 <= 1.0 else d2
+        if d2 > 0.0:
             k = int(np.argmax(np.abs(U2 - U0) + np.abs(V2 - V0) + np.abs(sc2["temp"] - sc0["temp"])))
             V.append(C.viol(f"second update() of the same Forcing (same particle count, particles permuted): particle at ({X[k]},{Y[k]},Z={Z[k]}) gets ({U2[k]:.8f},{V2[k]:.8f}, temp {sc2['temp'][k]}) "
                             f"instead of ({U0[k]:.8f},{V0[k]:.8f}, temp {sc0['temp'][k]}): per-particle data of the previous step leaks into this one", **desc))
